@@ -188,44 +188,69 @@ NODE_FIELDS = (
 SUB_FIELDS = ("n_clusters", "best_k", "constant", "density", "min_density", "max_density")
 
 
+def safe_get(obj, name):
+    """Attribute read that never raises: a model damaged by the code under check must
+    show up as a *different state*, not as an exception inside the harness."""
+    try:
+        return getattr(obj, name)
+    except Exception as exc:  # noqa: BLE001
+        return "<unreadable:%s>" % type(exc).__name__
+
+
+def _num(v, as_float):
+    if isinstance(v, str) or v is None:
+        return v
+    try:
+        return fbits(v) if as_float else int(v)
+    except Exception:  # noqa: BLE001
+        return repr(v)[:60]
+
+
 def node_state(n, skip=()):
     out = []
     for f in NODE_FIELDS:
         if f in skip:
             continue
-        v = getattr(n, f, None)
-        out.append((f, fbits(v) if isinstance(v, (float, np.floating)) or f in ("cost", "density", "radius") else (int(v) if v is not None else None)))
+        v = safe_get(n, f)
+        out.append((f, _num(v, isinstance(v, (float, np.floating)) or f in ("cost", "density", "radius"))))
     if "features" not in skip:
-        out.append(("features", abits(n.features)))
+        feats = safe_get(n, "features")
+        out.append(("features", abits(feats) if isinstance(feats, np.ndarray) else repr(feats)[:60]))
     if "adjacency" not in skip:
-        out.append(("adjacency", tuple(int(a) for a in n.adjacency)))
+        adj = safe_get(n, "adjacency")
+        out.append(("adjacency", tuple(_num(a, False) for a in adj) if isinstance(adj, (list, tuple, np.ndarray)) else repr(adj)[:60]))
     return tuple(out)
 
 
 def subgraph_state(sg, skip=()):
-    if sg is None:
-        return None
-    out = [("nodes", tuple(node_state(n, skip) for n in sg.nodes))]
-    out.append(("idx_nodes", tuple(int(i) for i in sg.idx_nodes)))
-    out.append(("trained", bool(sg.trained)))
+    if sg is None or isinstance(sg, str):
+        return sg
+    nodes = safe_get(sg, "nodes")
+    out = [("nodes", tuple(node_state(n, skip) for n in nodes) if isinstance(nodes, list) else repr(nodes)[:60])]
+    order = safe_get(sg, "idx_nodes")
+    out.append(("idx_nodes", tuple(_num(i, False) for i in order) if isinstance(order, list) else repr(order)[:60]))
+    tr = safe_get(sg, "trained")
+    out.append(("trained", tr if isinstance(tr, str) else bool(tr)))
     for f in SUB_FIELDS:
         if hasattr(sg, f) and f not in skip:
-            v = getattr(sg, f)
-            out.append((f, fbits(v) if f not in ("n_clusters", "best_k") else int(v)))
+            out.append((f, _num(safe_get(sg, f), f not in ("n_clusters", "best_k"))))
     return tuple(out)
 
 
 def model_state(m, skip=()):
     out = [("kind", _kind_name(m))]
-    out.append(("distance", m.distance))
-    out.append(("distance_fn", getattr(m.distance_fn, "__name__", repr(type(m.distance_fn)))))
-    out.append(("pre_flag", bool(m.pre_computed_distance)))
+    out.append(("distance", safe_get(m, "distance")))
+    fn = safe_get(m, "distance_fn")
+    out.append(("distance_fn", fn if isinstance(fn, str) else getattr(fn, "__name__", repr(type(fn)))))
+    pf = safe_get(m, "pre_computed_distance")
+    out.append(("pre_flag", pf if isinstance(pf, str) else bool(pf)))
     if "pre_distances" not in skip:
-        out.append(("pre", None if m.pre_distances is None else abits(m.pre_distances)))
+        pre = safe_get(m, "pre_distances")
+        out.append(("pre", abits(pre) if isinstance(pre, np.ndarray) else (None if pre is None else repr(pre)[:60])))
     for f in ("min_k", "max_k"):
-        if hasattr(m, f):
-            out.append((f, int(getattr(m, f))))
-    out.append(("subgraph", subgraph_state(m.subgraph, skip)))
+        if hasattr(type(m), f):
+            out.append((f, _num(safe_get(m, f), False)))
+    out.append(("subgraph", subgraph_state(safe_get(m, "subgraph"), skip)))
     return tuple(out)
 
 
